@@ -6,7 +6,7 @@ from checks.c16 import pe
 TYPED = ["", "-", "--", "--a", "--output-dir", "$(touch CANARY1)", "`touch CANARY2`", "a'b", "a\"b", "a b", "a;touch CANARY3", "a|b", "x\ny", "\\", "*",
          "ñ", "--out=$(touch CANARY4)", "'", "a&b", "');touch CANARY5;('", "$HOME", "--name=cv", "a\\'b", "~", "#x", "{a,b}"]
 HELPS = ["plain help", "it's quoted", "$(touch CANARY6)", "semi; colon", "back`tick`", "dq \" here", "paren ) ( here", "two\nlines",
-         "long " + "word " * 30]
+         "long " + "word " * 30, "hard break:\n - one\n - two", "first\n continued line\n\nsecond paragraph"]
 
 
 def shell_family(seed, n):
@@ -131,7 +131,8 @@ def run(v):
                          {k: x[k] for k in x if k not in ("chars", "lines")})
                 continue
             good.append(x)
-            w.write(json.dumps({k: x[k] for k in ("shell", "chars", "lines", "items", "groups", "nfiles")}) + "\n")
+            w.write(json.dumps({k: x[k] for k in ("shell", "chars", "lines", "items", "groups", "nfiles")} |
+                               {"typednl": "%0A" in (x["argv"][-1] if x["argv"] else "")}) + "\n")
     t = run_tlc("ShellTrace", "ShellTrace.cfg", env={"TRACE": slim}, workers=1,
                 extra_java="-Xss1g -Dtlc2.tool.queue.IStateQueue=StateDeque", timeout=7200)
     for l in open(t["out"], errors="replace"):
